@@ -359,6 +359,8 @@ def _mentions_bscount(e: ast.AST) -> bool:
 def rule_frame(c: Ctx) -> RuleResult:
     r = RuleResult("FRAME", "column frames: tab stops are computed on absolute columns (a bsCount term is present), stores to bsCount keep "
                             "it absolute, and per-line marker flags used in column arithmetic come from the line they are applied to")
+    c = c.normalised("rules_block/")
+    r.notes += c.norm_notes()
     phase = c.cg.parse_phase()
     n1 = n2 = 0
     for f in sorted(phase, key=lambda x: x.qual):
